@@ -74,6 +74,10 @@ fn main() {
             image::run(seed, cases, &mut sink, &outdir, only)
         }
         "image-leak" => image::scenario_leak(&mut sink, &outdir),
+        "image-script" => {
+            let focus = arg(&args, "--focus").unwrap_or_default();
+            image::scenario_script(&focus, &mut sink, &outdir)
+        }
         "image-branch-ops" => image::scenario_branch_ops(seed, cases, &mut sink, &outdir),
         "image-prefix-tail" => image::scenario_prefix_tail(&mut sink, &outdir),
         "image-prefix-shrink" => image::scenario_prefix_shrink(&mut sink, &outdir),
